@@ -21,8 +21,7 @@ import time
 import common as C
 import gen as G
 
-THEOREMS = ['broadcast_refines_spec_partial', 'broadcast_tooffsets_spec', 'scalar_broadcasts', 'none_propagates',
-            'length_mismatch_errors', 'spec_same_structure_is_zip', 'spec_result_has_deepest_structure']
+THEOREMS = ['scalar_broadcasts', 'none_propagates', 'length_mismatch_errors', 'spec_result_has_deepest_structure']
 DRIVERS = ('pydrv',)
 COQ_DIR = '/verif/c04/coq'
 COQ_LOGICAL = '-R /verif/coq AwkV -R . AwkBroadcast'
@@ -1390,7 +1389,7 @@ def replay_cases(path):
 
 
 def cases(rng, tier):
-    n = 1000 if tier == 'quick' else 20000
+    n = 2000 if tier == 'quick' else 20000
     out = corpus_cases()
     for i in range(n):
         out.append(make_case(rng, i))
